@@ -15,14 +15,14 @@ type shape struct {
 
 const (
 	opAdd, opSub, opMul, opAnd, opOr, opXor = 0, 1, 2, 7, 8, 9
-	relEq, relNe, relLtU, relGtU             = 0, 1, 3, 5
+	relEq, relNe, relLtU, relGtU            = 0, 1, 3, 5
 )
 
-func lg(i int) c.Ins       { return c.ILocalGet(i) }
-func ls(i int) c.Ins       { return c.ILocalSet(i) }
-func k32(v uint64) c.Ins   { return c.IConst(c.I32, v) }
-func bin(k int) c.Ins      { return c.IBin(c.I32, k) }
-func rel(k int) c.Ins      { return c.IRel(c.I32, k) }
+func lg(i int) c.Ins     { return c.ILocalGet(i) }
+func ls(i int) c.Ins     { return c.ILocalSet(i) }
+func k32(v uint64) c.Ins { return c.IConst(c.I32, v) }
+func bin(k int) c.Ins    { return c.IBin(c.I32, k) }
+func rel(k int) c.Ins    { return c.IRel(c.I32, k) }
 func seq(xs ...[]c.Ins) []c.Ins {
 	var o []c.Ins
 	for _, x := range xs {
